@@ -454,8 +454,16 @@ def run_case(ctx, P, stream, idx):
         style = r.choice(STYLES)
         types = r.random() < 0.8
         params = docgen.rand_params(r, star=r.random() < 0.3, types=types, trigger=r.random() < 0.2)
+        rk = __import__("random").Random(r.random())
+        kwc = {}
+        if types and rk.random() < 0.15:
+            # a type that has a colon of its own (a Literal member, a slice, a Callable signature): the field's value starts
+            # after the colon that closes the field marker, not after the last one
+            kwc["returns"] = (rk.choice(("Literal['host:port', 'socket']", "Literal['a:b']", "Dict[str, Literal['x:y', 'z']]")),
+                              irgen.rand_doc(rk, stop=False))
+            params = [(p_[0], rk.choice((p_[1], "Literal['k:v', 'kv']")) if p_[1] else p_[1]) + tuple(p_[2:]) for p_ in params]
         text, parts = docgen.compose(r, style, indent=r.randint(0, 2), params=params, types=types,
-                                     lead_nl=r.random() < 0.8, multi_line=r.random() < 0.3)
+                                     lead_nl=r.random() < 0.8, multi_line=r.random() < 0.3, **kwc)
         P.case({"doc": text}, klass="docstrings/" + style, sample={"style": style, "docstring": text})
         for kw in ({}, {"infer_type": True}, {"emit_default_doc": False}, {"parse_original_whitespace": True}):
             try:
